@@ -302,6 +302,10 @@ pub fn judge(sc: &S1Scenario, obs: &Obs) -> Judged {
                 if obs.state_count < t && stopped_early && !other_reason {
                     v.push(Violation::new("C12", format!("below-target:{}", strat), format!("state_count {} < target {} although more states exist", obs.state_count, t)));
                 }
+                // the same, counted on the model's side (the checker's own counter could be off)
+                if obs.model_generated < t && stopped_early && !other_reason {
+                    v.push(Violation::new("C12", format!("below-target:{}", strat), format!("the checker generated {} states (counted by the model) < target {} although more states exist; it reports state_count {}", obs.model_generated, t, obs.state_count)));
+                }
             }
         }
         // (c') the simulation strategy only stops on its finish condition, its target or a timeout
